@@ -86,3 +86,16 @@ impl PrimName {
 }
 #[verifier::external_body]
 pub fn primitive_type_description(primitive: &TypeDefPrimitive) -> (r: PrimName) ensures r.p@ == *primitive { unimplemented!() }
+
+// ty_description: the name in front of a definition comes from type_name_with_type_params (recursive, format! / join: opaque here, named by
+// the uninterpreted name_text; its Primitive arm is U-PRIMNAMES' second Kani harness); `transformer.types()` hands out the registry.
+pub uninterp spec fn name_text(ty: Type) -> Seq<char>;
+#[verifier::external_body]
+pub fn type_name_with_type_params(ty: &Type, types: &PortableRegistry) -> (r: String) ensures r@ == name_text(*ty) { unimplemented!() }
+impl DescTransformer {
+    #[verifier::external_body]
+    pub fn types(&self) -> (r: &PortableRegistry) { unimplemented!() }
+}
+#[verifier::external_body]
+pub fn fmt3<A: FmtArg, B: FmtArg, C: FmtArg>(l0: &str, a: &A, l1: &str, b: &B, l2: &str, c: &C, l3: &str) -> (r: String)
+    ensures r@ == l0@ + a.text() + l1@ + b.text() + l2@ + c.text() + l3@ { unimplemented!() }
